@@ -137,6 +137,7 @@ func generate(r *hx.Rand, big bool) *gcase {
 	}
 	common := nsChoice{pickNS(r, ptNS, 1+r.Intn(2)), pickNS(r, pathNS, 1+r.Intn(2)), pickNS(r, areaNS, 1), pickNS(r, relNS, 1)}
 	used := map[b6.FeatureID]bool{}
+	absent := map[b6.FeatureID]bool{}
 	cell := 0
 	var all []gfeat // everything generated so far (for members / duplicates)
 	for k := 0; k < nfiles; k++ {
@@ -247,7 +248,14 @@ func generate(r *hx.Rand, big bool) *gcase {
 				}
 			}
 			if r.Chance(1, 15) && len(p.refs) > 0 { // a point nobody has: the builder drops the path
-				p.refs[r.Intn(len(p.refs))] = b6.FeatureID{Type: b6.FeatureTypePoint, Namespace: ch.pt[0], Value: 9000 + uint64(r.Intn(3))}
+				// an id no file defines, now or later (thorough seed 1 case 2812: a random point value was 9000, so
+				// the path was dropped by its own file but kept by the one-file build of the union)
+				aid := b6.FeatureID{Type: b6.FeatureTypePoint, Namespace: ch.pt[0], Value: 9000 + uint64(r.Intn(3))}
+				for used[aid] && !absent[aid] {
+					aid.Value += 3
+				}
+				used[aid], absent[aid] = true, true
+				p.refs[r.Intn(len(p.refs))] = aid
 				c.shape = append(c.shape, "path:absent-point")
 			}
 			f.feats = append(f.feats, p)
@@ -1064,7 +1072,7 @@ func caseChild(arg string) string {
 }
 
 const (
-	quick    = 480
+	quick    = 1000
 	thorough = 4000
 )
 
